@@ -33,14 +33,17 @@ Proof.
   simpl. intro H. apply andb_true_iff in H as [H _]. destruct prev as [a|]; [|reflexivity].
   unfold adj in H. destruct (ends_operand a) eqn:Ee; [discriminate|].
   apply andb_true_iff in H as [_ H]. destruct (is_update_pre a) eqn:Eu; [discriminate|].
-  destruct a as [s|s|b' f'|o|s| |]; try discriminate.
+  destruct a as [s|s|b' f'|o|s| | | | | |]; try discriminate.
   - apply goal_op; assumption.
+  - reflexivity.
+  - reflexivity.
+  - reflexivity.
   - reflexivity.
 Qed.
 
 Lemma ends_div a : item_ok a -> ends_operand a = true -> regex_ok (ctx_after (last_tok a)) = false.
 Proof.
-  destruct a as [s|s|b f|o|s| |]; simpl; intros Hi He; try reflexivity; try discriminate.
+  destruct a as [s|s|b f|o|s| | | | | |]; simpl; intros Hi He; try reflexivity; try discriminate.
   - destruct Hi as [_ H]. exact H.
   - destruct o; try discriminate; reflexivity.
   - destruct Hi as [_ H]. exact H.
@@ -64,7 +67,7 @@ Proof. destruct o; simpl; intros; try discriminate; auto. Qed.
 
 Lemma starts_hd45 k : item_ok k -> starts_operand k = true -> hdz (text k) = 45 -> k = IOp UNeg \/ k = IOp UPreDec.
 Proof.
-  intros Hk Hs H45. destruct k as [s|s|b f|o|s| |]; try discriminate.
+  intros Hk Hs H45. destruct k as [s|s|b f|o|s| | | | | |]; try discriminate.
   - destruct Hk as [Hw _]. destruct (word_shape_hd s Hw) as [_ Hs']. simpl in H45. rewrite H45 in Hs'. discriminate.
   - destruct (num_last s Hk) as [_ Hd]. simpl in H45. rewrite H45 in Hd. discriminate.
   - simpl in Hs. destruct (op_kind o) eqn:Ek; try discriminate.
@@ -153,7 +156,7 @@ Proof.
   intros Hp Hi Hr Hc R.
   pose proof (need_holds mw prev st i r Hi Hr Hc) as N.
   rewrite <- (hdz_rest mw _ _ r Hr) in N. fold R in N.
-  destruct i as [s|s|b f|o|s| |].
+  destruct i as [s|s|b f|o|s| | | | | |].
   - destruct N as [N|[X _]]; [|discriminate]. simpl in N. apply andb_true_iff in N as [N N92].
     apply negb_true_iff in N. apply negb_true_iff in N92.
     apply lex1_word; [destruct Hi; assumption | apply nohead_of_hdz; exact N | apply nohead_of_hdz; exact N92].
@@ -218,6 +221,14 @@ Proof.
     apply punct_follow_char; try reflexivity; try exact N; simpl; discriminate.
   - destruct N as [N|[X _]]; [|discriminate]. simpl in N. apply negb_true_iff in N.
     apply punct_follow_char; try reflexivity; try exact N; simpl; discriminate.
+  - destruct N as [N|[X _]]; [|discriminate]. simpl in N. apply negb_true_iff in N.
+    apply punct_follow_char; try reflexivity; try exact N; simpl; discriminate.
+  - destruct N as [N|[X _]]; [|discriminate]. simpl in N. apply negb_true_iff in N.
+    apply punct_follow_char; try reflexivity; try exact N; simpl; discriminate.
+  - destruct N as [N|[X _]]; [|discriminate]. simpl in N. apply negb_true_iff in N.
+    apply punct_follow_char; try reflexivity; try exact N; simpl; discriminate.
+  - destruct N as [N|[X _]]; [|discriminate]. simpl in N. apply negb_true_iff in N.
+    apply punct_follow_char; try reflexivity; try exact N; simpl; discriminate.
 Qed.
 
 (* ---- render_lex ---- *)
@@ -253,7 +264,7 @@ Proof.
       rewrite (IH (Some i) (after mw st i) (sp (post_sp mw i)) n Hp' Hr Hc' (sp_spaces _)).
       - simpl toks. rewrite (single_toks i Hs). reflexivity.
       - fold R. lia. }
-    destruct i as [s|s|b f|o|s| |]; try (apply Hsingle; exact I).
+    destruct i as [s|s|b f|o|s| | | | | |]; try (apply Hsingle; exact I).
     (* IDot: two tokens *)
     destruct L as [L1 L2]. simpl text in *.
     rewrite (lex_all_step n _ _ _ _ _ Hskip Hne2 L1).
